@@ -1580,6 +1580,39 @@ def _unix_inodes():
     return out
 
 
+def _listener_refs(pids, ports):
+    """descriptors in `pids` that refer to a TCP socket listening on one of `ports` (minimum over the ports)"""
+    by_port = {}
+    for fn in ('/proc/net/tcp', '/proc/net/tcp6'):
+        try:
+            for row in open(fn).read().split('\n')[1:]:
+                f = row.split()
+                if len(f) > 9 and f[3] == '0A':
+                    port = int(f[1].rsplit(':', 1)[1], 16)
+                    if port in ports:
+                        by_port.setdefault(port, set()).add(f[9])
+        except OSError:
+            pass
+    if not by_port:
+        return 0
+    counts = []
+    for port, inodes in by_port.items():
+        n = 0
+        for p_ in pids:
+            try:
+                for fd in os.listdir('/proc/%d/fd' % p_):
+                    try:
+                        l = os.readlink('/proc/%d/fd/%s' % (p_, fd))
+                    except OSError:
+                        continue
+                    if l.startswith('socket:[') and l[8:-1] in inodes:
+                        n += 1
+            except OSError:
+                pass
+        counts.append(n)
+    return min(counts)
+
+
 def _socket_fds(pids):
     """number of descriptors of non-AF_UNIX sockets held by the proxy's processes (listeners + client /
     upstream connections, also fully closed ones that only a leaked descriptor keeps alive).  AF_UNIX
@@ -1695,6 +1728,12 @@ def _run_config(mode, nw, fs, cases, na=None):
         for _ in range(2 * max(nw, na or nw) + 1):
             w = _Conv(targets['main'], [('send', b'GET /c17/hello HTTP/1.1\r\nHost: px\r\n\r\n'), ('http',)])
             w.run()
+        # every acceptor holds two descriptors of each listener (the received one and its dup) once it is
+        # up: under load an acceptor may get there seconds after its siblings served the warm-up
+        ports = [pport] + ([p.flags.ports[0]] if fs == 'U' else [])
+        t_end = time.time() + 30.0
+        while time.time() < t_end and _listener_refs(procs, ports) < 2 * (na or nw) * (1 if fs != 'U' else 1):
+            time.sleep(0.05)
         # baseline once every process has finished starting (event loops, queues): stable for 0.4 s
         base, same, t_end = _socket_fds(procs), 0, time.time() + 10.0
         while same < 8 and time.time() < t_end:
@@ -1711,7 +1750,7 @@ def _run_config(mode, nw, fs, cases, na=None):
             lines = _run_scenario(c, pport, origins, targets)
             hangs = hangs + 1 if any(ln.endswith(' hang') for ln in lines) else 0
             # descriptor hygiene: every socket of the scenario is closed again in every proxy process
-            t_end = time.time() + 3.0
+            t_end = time.time() + 12.0        # only waited out when something is still open (loaded machine)
             leak = _socket_fds(procs) - base
             while leak > 0 and time.time() < t_end:
                 time.sleep(0.02)
